@@ -878,9 +878,10 @@ func TestRecord(t *testing.T) {
 	}
 	names := []string{"o1", "o2", "o3", "o4"}
 	// "aaa" is a prefix of "aaab": index keys of one must never answer for the other; "aaa/zz" and "aaa/a" are path-like
-	// denominations under "aaa" (factory/.../token and factory/.../token/staked): the per-denomination stores of the
+	// denominations under "aaa" (factory/.../token and factory/.../token/staked; the second one also CONTAINS the prefix
+	// of concentrated-liquidity share denominations, "cl/pool", without starting with it: an ordinary token all the same): the per-denomination stores of the
 	// accumulation trees nest physically ("aaa/" is a prefix of "aaa/zz/"), sorting before and after the trees' own keys
-	denoms := []string{"aaa", "aaab", "bbb", "aaa/zz", "aaa/a"}
+	denoms := []string{"aaa", "aaab", "bbb", "aaa/zz", "aaa/cl/pool/1"}
 	counts := map[string]int{}
 	recs := []*recorder{}
 	for h := 0; h < nh; h++ {
